@@ -30,6 +30,9 @@ func (e *Engine) ifaceContract(c *ssa.CallCommon) *Contract {
 
 func (fc *FnCtx) doCall(res ssa.Value, c *ssa.CallCommon, in ssa.Instruction) {
 	pos := in.Pos()
+	prevCall := fc.curCall
+	fc.curCall = c
+	defer func() { fc.curCall = prevCall }()
 	setRes := func(v Val) {
 		if res != nil {
 			fc.setVal(res, v)
